@@ -54,6 +54,7 @@ class Observer:
         self.samples: list = []
         self.violations: list = []
         self.harness_errors: list[str] = []
+        self.watchdogs: list[str] = []
         self.cases = 0
         self.truncated = False
         self._case = None
@@ -106,7 +107,7 @@ class Observer:
         innermost_ropt = last.startswith(env.SRC)
         if isinstance(exc_info[1], CaseTimeout):
             self.counters["case_watchdog"] += 1
-            self.harness_errors.append(f"case {self._index} exceeded the per-case watchdog")
+            self.watchdogs.append(f"case {self._index} exceeded the per-case wall-clock watchdog")
             return
         if in_ropt and (innermost_ropt or not last.startswith(env.VERIF_DIR)):
             self.violation("unexpected_exception", exception=repr(exc_info[1]), where=f"{frames[-1].filename}:{frames[-1].lineno}",
@@ -117,7 +118,7 @@ class Observer:
     def dump(self) -> dict:
         return {"counters": dict(self.counters), "features": dict(self.features), "keys": sorted(self.keys),
                 "samples": self.samples, "violations": self.violations, "cases": self.cases,
-                "harness_errors": self.harness_errors[:5], "truncated": self.truncated,
+                "harness_errors": self.harness_errors[:5], "watchdogs": self.watchdogs[:5], "truncated": self.truncated,
                 "anchors": {f"{k[0]}::{k[1]}": v for k, v in self.anchors.items()}}
 
 
